@@ -271,10 +271,109 @@ func consistencyCheck(h []event, unlocking, locking []byte) (string, string) {
 			if msg := dataMovementCheck(bo, st); msg != "" {
 				return "snapshot-step", fmt.Sprintf("event %d: %s", i, msg)
 			}
+			if msg := condStepCheck(bo, st); msg != "" {
+				return "snapshot-step", fmt.Sprintf("event %d: %s", i, msg)
+			}
+			// the code-separator index moves only when an OP_CODESEPARATOR executes
+			if len(bo.cond) == 0 && !bo.early {
+				wantSep := bo.lastSep
+				if bo.scripts[bo.scriptIdx][bo.opIdx].val == 0xab {
+					wantSep = bo.opIdx
+				}
+				if st.lastSep != wantSep {
+					return "snapshot-step", fmt.Sprintf("event %d: LastCodeSeparatorIdx went from %d to %d across opcode 0x%02x at %d:%d (expected %d)", i, bo.lastSep, st.lastSep, bo.scripts[bo.scriptIdx][bo.opIdx].val, bo.scriptIdx, bo.opIdx, wantSep)
+				}
+			}
+			// the operation counter: every executed-or-skipped opcode above OP_16 counts once
+			// (CHECKMULTISIG adds its key count, so it is left out)
+			if op := bo.scripts[bo.scriptIdx][bo.opIdx]; op.val != 0xae && op.val != 0xaf && !(bo.opIdx > 0 && bo.scripts[bo.scriptIdx][bo.opIdx-1].val == 0x6a) {
+				want := bo.numOps
+				if op.val > 0x60 {
+					want++
+				}
+				if st.numOps != want {
+					return "snapshot-step", fmt.Sprintf("event %d: NumOps went from %d to %d across opcode 0x%02x (expected %d)", i, bo.numOps, st.numOps, op.val, want)
+				}
+			}
 			bo = nil
 		}
 	}
 	return "", ""
+}
+
+func truthy(b []byte) bool {
+	for i, c := range b {
+		if c != 0 {
+			return !(i == len(b)-1 && c == 0x80)
+		}
+	}
+	return false
+}
+
+// condStepCheck is the reference transition of the conditional stack for IF / NOTIF / ELSE / ENDIF.
+func condStepCheck(b, a *snap) string {
+	if b.early {
+		return ""
+	}
+	op := b.scripts[b.scriptIdx][b.opIdx].val
+	if op != 0x63 && op != 0x64 && op != 0x67 && op != 0x68 {
+		return ""
+	}
+	cond := append([]int{}, b.cond...)
+	data := b.data
+	switch op {
+	case 0x63, 0x64:
+		exec := true
+		if b.afterGenesis {
+			for _, v := range cond {
+				if v == 0 {
+					exec = false
+				}
+			}
+		}
+		val := 0
+		if exec {
+			if len(cond) == 0 || cond[len(cond)-1] == 1 {
+				if len(data) == 0 {
+					return fmt.Sprintf("opcode 0x%02x completed in an executing branch with an empty data stack", op)
+				}
+				v := truthy(data[len(data)-1])
+				if op == 0x64 {
+					v = !v
+				}
+				if v {
+					val = 1
+				}
+				data = data[:len(data)-1]
+			} else {
+				val = 2
+			}
+		}
+		cond = append(cond, val)
+	case 0x67:
+		if len(cond) == 0 {
+			return "OP_ELSE completed with an empty conditional stack"
+		}
+		switch cond[len(cond)-1] {
+		case 1:
+			cond[len(cond)-1] = 0
+		case 0:
+			cond[len(cond)-1] = 1
+		}
+	case 0x68:
+		if len(cond) == 0 {
+			return "OP_ENDIF completed with an empty conditional stack"
+		}
+		cond = cond[:len(cond)-1]
+	}
+	same := len(cond) == len(a.cond)
+	for i := 0; same && i < len(cond); i++ {
+		same = cond[i] == a.cond[i]
+	}
+	if !same || !sameStack(data, a.data) {
+		return fmt.Sprintf("after conditional opcode 0x%02x at %d:%d the snapshot shows cond %v / data depth %d, the instruction's effect on the previous snapshot is cond %v / data depth %d", op, b.scriptIdx, b.opIdx, a.cond, len(a.data), cond, len(data))
+	}
+	return ""
 }
 
 func scriptNumBytes(n int) []byte {
